@@ -2,6 +2,7 @@
   wp rowsrest — line protocol of the RSS-14 part of suite `c06rows` (model Gzx/Model/RSS14.lean run with IEEE binary64).
 -/
 import Gzx.Model.RSS14
+import Gzx.Ref.RSS14
 namespace Gzx.Driver.C06RowsRSS
 open Gzx Gzx.Det Gzx.RSS14
 
@@ -77,6 +78,11 @@ def handle : List String → String
     match parseIntList? ws, parseInt? mw with
     | some ws, some mw => showR (fun (v : Int) => s!"ok {v}") (getRSSvalue ws mw (nn == "1"))
     | _, _ => "bad-op"
+  -- the reference encoder written from the standard (Gzx/Ref/RSS14.lean): 46 element widths of a 13-digit value
+  | ["refenc", v] =>
+    match parseNat? v with
+    | some v => (match Ref.RSS14.encode v with | some ws => "ok " ++ showIntList ws | none => "none")
+    | none => "bad-op"
   | ["combins", n, r] =>
     match parseInt? n, parseInt? r with
     | some n, some r => showR (fun (v : Int) => s!"ok {v}") (combins n r)
